@@ -7,4 +7,8 @@
 #    "sync"/"sync/atomic"/"time" imports rewritten to the verif shim packages.
 set -eu
 cd /verif
+if [ -d ovl/profiles ] && { [ ! -x .cache/bin/maprange ] || [ engine/cmd/maprange/main.go -nt .cache/bin/maprange ]; }; then
+  mkdir -p .cache/bin
+  GOFLAGS=-mod=mod GOPROXY=off GOSUMDB=off GOTOOLCHAIN=local go build -o .cache/bin/maprange ./engine/cmd/maprange
+fi
 exec python3 ovl/gen.py
